@@ -4,8 +4,8 @@ pub use nom;
 
 use nom::branch::alt;
 use nom::bytes::complete::tag;
-use nom::character::complete::{alpha1, digit1, hex_digit1, multispace0, multispace1};
-use nom::combinator::{map, opt, recognize, verify};
+use nom::character::complete::{alpha1, digit1, hex_digit1, multispace0, multispace1, satisfy};
+use nom::combinator::{map, not, opt, recognize, verify};
 use nom::error::{ErrorKind, ParseError};
 use nom::multi::{many0, many1};
 use nom::sequence::{delimited, preceded, terminated, tuple};
@@ -947,7 +947,11 @@ fn public_id(input: &str) -> IResult<&str, &str> {
 fn ns_att_name(input: &str) -> IResult<&str, model::AttributeName<'_>> {
     alt((
         map(preceded(tag("xmlns:"), ncname), model::AttributeName::from), // [2] PrefixedAttName
-        map(tag("xmlns"), |_| model::AttributeName::default()),           // [3] DefaultAttName
+        // [3] DefaultAttName ("xmlnsfoo" is an ordinary attribute name)
+        map(
+            terminated(tag("xmlns"), not(satisfy(xmlchar::is_name_char))),
+            |_| model::AttributeName::default(),
+        ),
     ))(input)
 }
 
